@@ -492,8 +492,12 @@ func valuesOf(v ad.ConstVector) string {
 	for i := 0; i < v.Dim(); i++ {
 		fmt.Fprintf(&b, "%d/%v;", v.Int64At(i), v.Float64At(i))
 	}
+	// positions the iterator visits with a non-zero value (a dense source also
+	// visits its zeros)
 	for it := v.ConstIterator(); it.Ok(); it.Next() {
-		fmt.Fprintf(&b, "|%d", it.Index())
+		if i := it.Index(); v.Float64At(i) != 0 {
+			fmt.Fprintf(&b, "|%d", i)
+		}
 	}
 	return b.String()
 }
